@@ -3,7 +3,9 @@
 Decides (shape): R1 type confinement, R2 writer confinement (call graph + touched
 fields), R3 prefix, R4 size is a function of the parameters only, R5 import
 confinement, R6 key generation stores values derived from secret-key storage into key material only masked
-(inter-procedural secret-value flow, sa/secretflow.py).  Not decided: that the masks and noise are statistically
+(inter-procedural secret-value flow, sa/secretflow.py).  R7 the key-set generator hands every secret key object it
+creates to the key generator of its type, unconditionally and before any other use, in every build variant.
+Not decided: that the masks and noise are statistically
 good (C07) and that the masked encodings hide the key computationally.
 """
 import re
@@ -193,3 +195,53 @@ def run(chk):
         ioseq.check_c17_sequences(chk, v, CLOUD_EXPORTS, SECRET_EXPORTS)
         # R6 ------------------------------------------------------------------
         check_secret_values(chk, v, seen)
+        check_keys_drawn(chk, v)
+
+
+# ------------------------------------------------------------------------------ R7: secret keys are drawn before they are used
+KEYGEN_OF = {"LweKey": "lweKeyGen", "TLweKey": "tLweKeyGen", "TGswKey": "tGswKeyGen"}
+
+
+def check_keys_drawn(chk, v):
+    """In the key-set generator every secret key object it creates is handed, unconditionally and before any other use, to
+    the key generator of its type (in EVERY build variant: a call that lives inside an assert() disappears with NDEBUG).
+    Otherwise the keys that encrypt the cloud key are whatever the constructor left there (zeros or heap garbage), i.e.
+    not secret."""
+    from sa import summ, sym
+    vn = v.name
+    f = v.fn(KEYGEN_ENTRY)
+    ps, _ = summ.pieces(v, f, hooks=summ.InlineLib(only=lambda fn: False))
+    created = {}
+    for k, p in enumerate(ps):
+        if p["kind"] == "call" and p.get("eff") and p["eff"].get("ret") is not None and p["eff"]["ret"][0] == "obj":
+            m = re.match(r"^new_(\w+)$", p["name"])
+            if m and m.group(1) in KEYGEN_OF:
+                created[p["eff"]["ret"]] = (m.group(1), k, p["line"])
+    chk.vcount(vn, "R7.secret_keys_created", len(created))
+    if len(created) < 2:
+        chk.broken("%s: expected the LWE key and the TGSW key to be created here, found %d" % (KEYGEN_ENTRY, len(created)))
+    for obj, (rec, k0, line) in sorted(created.items(), key=lambda kv: kv[1][1]):
+        key = "%s: the %s created at line %s is drawn by %s before it is used" % (KEYGEN_ENTRY, rec, line, KEYGEN_OF[rec])
+        uses = [(k, p) for k, p in enumerate(ps) if k > k0 and p["kind"] == "call" and any(a is not None and sym.contains(a, obj) for a in p["args"])]
+        kg = v.fn(KEYGEN_OF[rec])
+
+        def draws(p):
+            if p["name"] == KEYGEN_OF[rec] and p["args"] and p["args"][0] == obj:
+                return True
+            g_ = v.defs.get((p.get("eff") or {}).get("usr"))
+            # a helper that receives the key object and reaches the generator of its type
+            return g_ is not None and g_.file.startswith("libtfhe") and any(a == obj for a in p["args"]) and kg.usr in v.reachable([g_.usr]) \
+                and not g_.name.startswith(("tfhe_create", "new_", "delete_"))
+        gen = [(k, p) for k, p in uses if draws(p)]
+        if not gen:
+            chk.refuted("R7", key, where="%s:%s" % (f.file, line),
+                        detail="%s is never called on it in this build variant%s: the key keeps the contents its constructor left (zeros or uninitialised "
+                               "memory) and everything encrypted under it is readable" % (
+                                   KEYGEN_OF[rec], " (the call sits inside an assert(), which NDEBUG removes)" if v.cfg == "optim" else ""), variant=vn)
+            continue
+        gk, gp = gen[0]
+        first_use = uses[0][0]
+        ok = not gp["guards"] and not gp["loops"] and gk == first_use
+        chk.require(ok, "R7", key, where="%s:%s" % (f.file, gp["line"]), ok="unconditional, first use of the object",
+                    bad="the call is %s" % ("conditional" if gp["guards"] else "inside a loop" if gp["loops"] else "preceded by another use at line %s" % uses[0][1]["line"]),
+                    variant=vn)
